@@ -540,6 +540,17 @@ K_SEMI = "roundtrip:nexus|row-count|quoted-semicolon-label-ends-the-statement"
 K_COMMAS = "roundtrip:nexus|unnamed-multistate|member-symbols-written-with-commas"
 K_EQUATE = "roundtrip:nexus|standard-named-multistate|EQUATE-is-repr-of-a-set-and-is-never-parsed"
 K_LOST = "roundtrip:copied-standard-matrix|state_alphabets-reset-by-constructor|cells-keep-old-states"
+K_LOST_CONCAT = "roundtrip:concatenated-standard-matrix|cells-refer-to-state-objects-of-the-source-alphabets"
+
+
+def k_lost(info):
+    """which of the two 'cells reference states outside the matrix's own alphabets' mechanisms: the (repaired) constructor
+    reset, or concatenate(), whose result keeps a fresh default alphabet while its cells are the sources' state objects"""
+    if isinstance(info, dict) and info.get("route") == "concat":
+        return K_LOST_CONCAT
+    return K_LOST
+
+
 K_SBT = "dataset-readback:nexus|LinkRequiredError|suppress_block_titles=False-writes-no-titles"
 K_LEAK = "parse-authored:nexus|interleave-flag-not-reset-between-blocks"
 
@@ -554,7 +565,7 @@ def classify_read_error(fmt, exc, src_model, text, info):
     msg = str(exc)
     labels = [r[0] for r in src_model] + list(info.get("other_labels", ()))
     if info.get("alphabets_lost"):
-        return K_LOST
+        return k_lost(info)
     if ";" in labels and nexus_involved(fmt, info):
         return K_SEMI
     if fmt == "nexml" and name == "ParseError" and any(c in l for l in labels for c in '"<&'):
@@ -579,7 +590,7 @@ def judge_models(ctx, op, fmt, dtype, alphabet, src_model, got, S, info, text):
         return True
     detail = {"diff": diff[2], "info": info, "text": text[:1200] if text else None}
     if info.get("alphabets_lost"):
-        ctx.violation(K_LOST, "matrix read back from %s differs (%s)" % (fmt, diff[0]), detail)
+        ctx.violation(k_lost(info), "matrix read back from %s differs (%s)" % (fmt, diff[0]), detail)
         return False
     # -- NeXML: taxon labels that came back in their JSON-escaped spelling
     if fmt == "nexml" and diff[0] in ("taxon-label", "taxon-order"):
@@ -644,7 +655,7 @@ def write_obj(ctx, obj, fmt, wkw, op, detail, tmpdir=None, src_model=None):
         raise
     except Exception as e:
         if isinstance(detail, dict) and detail.get("alphabets_lost"):
-            ctx.violation(K_LOST, "writing raised %s" % core.exc_brief(e), detail)
+            ctx.violation(k_lost(detail), "writing raised %s" % core.exc_brief(e), detail)
         else:
             ctx.unexpected("write:%s:%s" % (op, fmt), e, detail)
         return None
